@@ -74,6 +74,11 @@ def coordinate_maps(rnd, maxc):
     return maps
 
 
+def short(l, k=16):
+    l = list(l)
+    return str(l) if len(l) <= k else "%s... (%d elements)" % (str(l[:k])[:-1], len(l))
+
+
 def describe(c, m, mm):
     f = lambda x: m["base"] + m["stride"] * x
     starts, ends = [f(x) for x in c["starts"]], [f(x) for x in c["ends"]]
@@ -113,7 +118,7 @@ def leg_R(ctx, cfg, maxn, maxc, rnd, workers=4, heap="4g"):
     mms.sort(key=lambda m: (len(cases[m["case"]]["starts"]), m["map"], m["case"]))
     seen = set()
     for mm in mms:
-        if mm["case"] in seen or len(seen) >= 6:
+        if mm["case"] in seen or len(seen) >= 3:
             continue
         seen.add(mm["case"])
         c, m = cases[mm["case"]], maps[mm["map"]]
@@ -178,12 +183,12 @@ def judge(ctx, tpath, base, sample):
         if e["sid"] in badsids:
             continue
         badsids.add(e["sid"])
-        if len(badsids) > 6:
+        if len(badsids) > 3:
             continue
         new = [x for x in events if x["sid"] == e["sid"] and x["op"] == "new"][0]
         if e["op"] == "at":
             text = "regions session %d (%s, %d intervals): At(%s) [%s] = %s rejected by Trace_Regions: %s" % (
-                e["sid"], new["tag"], len(new["starts"]), e["rawq"], e["tag"], e["ret"], why)
+                e["sid"], new["tag"], len(new["starts"]), e["rawq"], e["tag"], short(e["ret"]), why)
         elif e["op"] == "new":
             text = "regions session %d: NewIndex with %d starts and %d ends, panic=%s rejected by Trace_Regions: %s" % (
                 e["sid"], len(e["starts"]), len(e["ends"]), e["panic"], why)
@@ -222,8 +227,8 @@ def run(ctx):
         leg_C(ctx, 40)
     else:
         leg_R(ctx, "MC_Regions_n3", 3, 3, rnd)
-        leg_T(ctx, 30)
-        leg_C(ctx, 6)
+        leg_T(ctx, 60)
+        leg_C(ctx, 10)
     ctx.exhaustive = True
 
 
